@@ -275,15 +275,18 @@ pub(crate) fn lex_between<'a>(
             let text = string_match.as_str();
             let (line_number, column) = lp.from_offset(offset);
             if text.ends_with('"') {
-                // Well-formed string literal.
+                // Well-formed string literal. It may contain
+                // newlines, so it can end on a later line.
+                let (end_line_number, end_column) = lp.from_offset(offset + string_match.end());
+
                 tokens.push(Token {
                     position: Position {
                         start_offset: offset,
                         end_offset: offset + string_match.end(),
                         line_number: line_number.as_usize(),
-                        end_line_number: line_number.as_usize(),
+                        end_line_number: end_line_number.as_usize(),
                         column,
-                        end_column: column + string_match.end(),
+                        end_column,
                         path: Rc::clone(&vfs_path.path),
                         vfs_path: vfs_path.clone(),
                     },
